@@ -73,7 +73,7 @@ def run(prog, tier, res):
     R1 = res.rule("C15.R1", "cluster_spacepoints passes (13 points, 3 cm); largest_cluster links points with distance <= max_distance", 2)
     R2 = res.rule("C15.R2", "every Cluster construction is dominated by len >= min_num_points; Cluster is constructed at that site only", 2)
     R3 = res.rule("C15.R3", "primary vertex only from beamline clusters with more than one track; secondaries empty; remainder = input minus vertex tracks", 3)
-    R4 = res.rule("C15.R4", "remainder bookkeeping removes exactly one input element per clustered element (position + swap_remove on the input vector)", 2)
+    R4 = res.rule("C15.R4", "remainder bookkeeping removes exactly one input element per clustered element (position + swap_remove on the input vector); every return of cluster_spacepoints hands back the input vector as remainder", 3)
 
     # ------------------------------------------------------------------ R1
     tab = accept.ret_table(prog, WRAP)
@@ -244,6 +244,23 @@ def run(prog, tier, res):
             res.hit(R4)
         else:
             res.violate(R4, fn, "remainder", "the remainder of %s is not computed by removing, for each clustered element, the input element found by `position(..).unwrap()` with `swap_remove` (other removals: %s): elements can be lost or kept twice" % (what, others), body.where())
+    # every return of the clustering hands back the input vector (after the removals) as the remainder: an early return
+    # with an empty / default result drops the points it was given
+    cb_ = prog.body(CL)
+    can_ = analysis(prog, cb_)
+    crets = [strip(t_) for _, t_ in can_.ret_assignments()]
+    ri = None
+    adt_ = prog.adts.get(R + "ClusteringResult")
+    if adt_:
+        for i_, f_ in enumerate(adt_["variants"][0]["fields"]):
+            if f_["name"] == "remainder":
+                ri = i_
+    ok_rem = bool(crets) and ri is not None and all(t_[0] == "aggr" and t_[1].endswith("ClusteringResult::ClusteringResult") and len(t_[2]) > ri
+                                                   and unmut(t_[2][ri]) == ("param", 1) for t_ in crets)
+    if ok_rem:
+        res.hit(R4)
+    else:
+        res.violate(R4, CL, "result", "a return of cluster_spacepoints does not hand back the input vector as `remainder` (points given to it would vanish)", cb_.where())
     # ------------------------------------------------------------------ R5: beamline clustering is a partition of its input
     R5 = res.rule("C15.R5", "beamline_clusters puts every track in exactly one cluster: seed = element 0, loop over the rest (skip(1)), one push of the loop's track on every iteration path", 3)
     BEAM = R + "vertex_fitting::beamline_clusters"
